@@ -634,6 +634,15 @@ def codec_cases(ctx, rng, n, live):
     imp = ["Lib.Base", "Lib.PyStr", "Lib.ImpExpTy", "Model.ImpExp"]
     ctx.coq_check_cases(imp, "ptype * pyval * res pyval", "chk_dump_attr", dumps, label="dumpattr", diag="diag_dump_attr")
     ctx.coq_check_cases(imp, "ptype * pyval * res pyval", "chk_load_attr", loads, label="loadattr", diag="diag_load_attr")
+    # how many of those the model declares outside its fragment (skipped, counted)
+    body = ("Definition dc : list (ptype * pyval * res pyval) := [\n%s\n].\nDefinition lc : list (ptype * pyval * res pyval) := [\n%s\n].\n"
+            "Eval vm_compute in (length (filter is_unmodelled_dump dc) + length (filter is_unmodelled_load lc))%%nat.\n"
+            % (";\n".join(t for t, _ in dumps[:300]), ";\n".join(t for t, _ in loads[:300])))
+    rc, out, vals = ctx.coq_eval("C13_unmodelled_count", imp, body)
+    try:
+        ctx.unmodelled += int(vals[-1].split(":")[0].strip().replace("%nat", ""))
+    except Exception:
+        ctx.notes.append("could not count Unmodelled codec cases: %s" % out[-200:])
 
     # ---- whole instances against the REGENERATED tables
     from idpyoidc.server.session.token import Item, SessionToken, AccessToken, AuthorizationCode, RefreshToken, IDToken
@@ -707,8 +716,8 @@ def codec_cases(ctx, rng, n, live):
                 continue
         lcases.append(("(%s, %s, %s, %s)" % (coq_str(cname), cv_items(o0), cv_items(d), rt), rec))
     imp = ["Lib.Base", "Lib.PyStr", "Lib.ImpExpTy", "Gen.ImpExpTables", "Model.ImpExp"]
-    ctx.coq_check_cases(imp, "pystr * fields * res fields", "(chk_dump_obj impexp_tables)", dcases, shard=150, label="dumpobj")
-    ctx.coq_check_cases(imp, "pystr * fields * fields * res fields", "(chk_load_obj impexp_tables)", lcases, shard=150, label="loadobj")
+    ctx.coq_check_cases(imp, "pystr * fields * res fields", "(chk_dump_obj impexp_tables)", dcases, shard=40, label="dumpobj")
+    ctx.coq_check_cases(imp, "pystr * fields * fields * res fields", "(chk_load_obj impexp_tables)", lcases, shard=40, label="loadobj")
 
 
 def harvest_live(P):
@@ -763,7 +772,7 @@ def run(ctx):
         rp_history(ctx, rng, rng.randint(8, 16))
 
     # (4) codec
-    codec_cases(ctx, rng, 400 if q else 6000, live[:80 if q else 800])
+    codec_cases(ctx, rng, 400 if q else 6000, live[:60 if q else 800])
 
 
 def replay(ctx, rp):
